@@ -104,8 +104,9 @@ SvValue(x, s) ==
       [] s = "Roman"  -> Str(RomanU[i + 1])
       [] s = "even"   -> [k |-> "plain", id |-> "True", t |-> (i % 2 = 0), fid |-> "False"]
       [] s = "odd"    -> Num(i % 2)
-      [] s = "start"  -> Num(IF i = 0 THEN 1 ELSE 0)
-      [] s = "end"    -> Num(IF i = x.n - 1 THEN 1 ELSE 0)
+      \* true only on the first / last *displayed* element (the whole sequence unless the tag is batched)
+      [] s = "start"  -> Num(IF i = x.first THEN 1 ELSE 0)
+      [] s = "end"    -> Num(IF i = x.last THEN 1 ELSE 0)
       [] s = "length" -> Num(x.n)
 
 \* names the sv frame answers: <<"sv", suffix>> | <<"first", attr>> | <<"last", attr>> | <<"var", attr>>
@@ -126,10 +127,11 @@ SvLookup(x, name) ==
         i == x.idx IN
     CASE d.f \in {"sv", "psv"} -> SvValue(x, d.a)
       [] d.f = "var"   -> AttrOf(x.items[i + 1], d.a)
-      [] d.f = "first" -> IF i = 0 THEN Num(1)
+      \* the first / last displayed element starts / ends a run in what is displayed
+      [] d.f = "first" -> IF i = x.first THEN Num(1)
                           ELSE [k |-> "plain", id |-> "True", fid |-> "False",
                                 t |-> AttrOf(x.items[i + 1], d.a) # AttrOf(x.items[i], d.a)]
-      [] d.f = "last"  -> IF i = x.n - 1 THEN Num(1)
+      [] d.f = "last"  -> IF i = x.last THEN Num(1)
                           ELSE [k |-> "plain", id |-> "True", fid |-> "False",
                                 t |-> AttrOf(x.items[i + 1], d.a) # AttrOf(x.items[i + 2], d.a)]
 
@@ -524,9 +526,16 @@ RbWith ==
 ---------------------------------------------------------------------------
 (* in (renderwob) *)
 
-SvFrame(items, idx, pre) ==
+SvFrame(items, idx, pre, first, last) ==
     [kind |-> "sv", b |-> EmptyFn, bar |-> FALSE,
-     x |-> [items |-> items, idx |-> idx, n |-> Len(items), pre |-> pre]]
+     x |-> [items |-> items, idx |-> idx, n |-> Len(items), pre |-> pre, first |-> first, last |-> last]]
+
+\* a batched tag (start=S size=Z as literals, no end, orphan and overlap 0) displays the window S .. min(S+Z-1, n), a start
+\* beyond the sequence is clamped to its last element (DT_InSV.opt; the full window arithmetic is DTBatch's)
+WinFirst(nd, n) == IF nd.bz = 0 THEN 0 ELSE (IF nd.bs > n THEN n ELSE nd.bs) - 1
+WinLast(nd, n)  == IF nd.bz = 0 THEN n - 1
+                   ELSE LET s == IF nd.bs > n THEN n ELSE nd.bs
+                            e == s + nd.bz - 1 IN (IF e > n THEN n ELSE e) - 1
 
 Reverse(s) == [i \in 1..Len(s) |-> s[Len(s) + 1 - i]]
 
@@ -558,17 +567,18 @@ RbIn ==
                  /\ IF items = <<>>
                     THEN \* else block, rendered without any push
                          /\ ctl' = ctl \o <<[k |-> "in", node |-> Node, st |-> "else", base |-> Len(ns),
-                                             items |-> <<>>, idx |-> 0, acc |-> <<>>, sb |-> Len(ns)]>>
+                                             items |-> <<>>, idx |-> 0, acc |-> <<>>, last |-> -1, sb |-> Len(ns)]>>
                                        \o <<RbAt(IF Node.he THEN Node.e ELSE <<>>, Len(ns))>>
                          /\ UNCHANGED <<ns, evs>>
                     ELSE LET cache == IF Node.c.k = "name"
                                       THEN <<Frame("cache", (Node.c.n :> [q.out.v EXCEPT !.items = items0]))>> ELSE <<>>
-                             fs == cache \o <<SvFrame(items, 0, Node.pre)>> IN
+                             fs == cache \o <<SvFrame(items, WinFirst(Node, Len(items)), Node.pre, WinFirst(Node, Len(items)),
+                                                       WinLast(Node, Len(items)))>> IN
                          /\ ns' = ns \o fs
                          /\ evs' = evs \o PushEvs(fs, 1, Len(ns))
                          /\ ctl' = Append(ctl, [k |-> "in", node |-> Node, st |-> "item", base |-> Len(ns),
-                                                items |-> items, idx |-> 0, acc |-> <<>>,
-                                                sb |-> Len(ns) + Len(fs)])
+                                                items |-> items, idx |-> WinFirst(Node, Len(items)), acc |-> <<>>,
+                                                last |-> WinLast(Node, Len(items)), sb |-> Len(ns) + Len(fs)])
     /\ UNCHANGED <<tid, plan, level, ret, result>>
 
 \* push rule for one element
@@ -586,7 +596,7 @@ InItem ==
     /\ Running /\ Top.k = "in" /\ Top.st = "item"
     /\ LET o == Top
            sv == ns[o.sb] IN
-       IF o.idx >= Len(o.items)
+       IF o.idx > o.last
        THEN Complete(o.acc)
        ELSE LET fs == ItemFrames(o.node, o.items[o.idx + 1])
                 ns1 == [ns EXCEPT ![o.sb] = [sv EXCEPT !.x.idx = o.idx]] IN
